@@ -15,8 +15,10 @@ CATALOGUE = [
     ('mutant', P, Q_OLD, Q_OLD.replace("shift = (shift[0]/output_dx, shift[1]/output_dx)", "shift = (shift[1]/output_dx, shift[0]/output_dx)"), 'C05.axisQ', 'focus shift axes swapped'),
     ('mutant', P, Q_OLD, Q_OLD.replace("shift = (shift[0]/output_dx, shift[1]/output_dx)", "shift = (shift[0]/input_dx, shift[1]/input_dx)"), 'C05.axisQ', 'focus shift divided by the input spacing'),
     ('mutant', P, "    resolution_element = (wavelength * prop_dist) / (input_diameter)\n    return resolution_element / output_dx", "    resolution_element = (wavelength * prop_dist) / (input_diameter)\n    return resolution_element * output_dx", 'C05.axisQ', 'Q_for_sampling multiplies by output_dx'),
-    ('variant', P, "    field_at_next_pupil = unfocus_fixed_sampling(field_after_fpm, fpm_dx, efl, wavelength, dx, wavefunction.shape, shift=shift, method=method)",
-     "    field_at_next_pupil = unfocus_fixed_sampling(field_after_fpm, dx, efl, wavelength, fpm_dx, wavefunction.shape, shift=shift, method=method)", '', 'return trip spacings swapped: the kernel depends on their product only'),
+    # (was listed as behaviour-preserving: the kernel depends on the product of the spacings only -- true without a shift; with one, the
+    # shift is converted to samples with the OUTPUT spacing, so the swap moves the field.  Found by the composition rule on values.)
+    ('mutant', P, "    field_at_next_pupil = unfocus_fixed_sampling(field_after_fpm, fpm_dx, efl, wavelength, dx, wavefunction.shape, shift=shift, method=method)",
+     "    field_at_next_pupil = unfocus_fixed_sampling(field_after_fpm, dx, efl, wavelength, fpm_dx, wavefunction.shape, shift=shift, method=method)", 'C05.roundtrip', 'return trip spacings swapped: same kernel, the shift converted with the other spacing'),
     ('mutant', P, "    field_at_next_pupil = unfocus_fixed_sampling(field_after_fpm, fpm_dx, efl, wavelength, dx, wavefunction.shape, shift=shift, method=method)",
      "    field_at_next_pupil = unfocus_fixed_sampling(field_after_fpm, fpm_dx, efl, wavelength, dx, fpm_samples, shift=shift, method=method)", 'C05.roundtrip', 'return trip sized like the mask'),
     ('mutant', P, "    field_after_fpm = field_at_fpm * fpm\n", "    field_after_fpm = field_at_fpm\n", 'C05.roundtrip', 'mask not applied'),
